@@ -233,8 +233,9 @@ theorem C19_tie_client_directory :
     CM.Gen.C19.newClientDirAssign = "client.Client.Directory = iss.TestCA" ∧
     CM.Gen.C19.usingTestCAConj = ["c.acmeClient.Directory == c.iss.TestCA", "c.iss.TestCA != \"\""] ∧
     CM.Gen.C19.basicClientURL =
+      -- (the scheme default and the HTTPS rule moved into `secureCAURL` with fix D19; they are C20's tie)
       ["caURL := iss.CA", "if{", "cond:caURL == \"\"", "caURL = DefaultACME.CA", "}",
-       "if{", "cond:!strings.Contains(caURL, \"://\")", "caURL = \"https://\" + caURL", "}"] ∧
+       "caURL, err := secureCAURL(caURL)"] ∧
     CM.Gen.C19.basicClientDirectory = "caURL" := by decide
 
 /-! ### the predicates are not vacuous: they reject the unrepaired worker (D15) -/
